@@ -34,6 +34,20 @@ void hook(string h) {
   if (scripts && scripts[h]) run(scripts[h]);
 }
 
+// deterministic message text for output checks: "[id]" + body of len bytes ending in LF, LF every k bytes
+string mkmsg(int id, int len) {
+  string alpha, line, s;
+  int k, i;
+  alpha = "abcdefghijklmnopqrstuvwxyz0123456789";
+  k = 7 + id % 13;
+  i = id % 36;
+  line = (alpha + alpha)[i..i + k - 2] + "\n";
+  s = sprintf("[%03d]", id);
+  if (len <= 0) return s;
+  s += repeat_string(line, len / k + 1)[0..len - 2] + "\n";
+  return s;
+}
+
 void spend(int n) { while (n-- > 0) ; }
 void forever() { while (1) ; }
 void deep(int n) { if (n > 0) deep(n - 1); }
@@ -65,6 +79,24 @@ void do_op(string op) {
     break;
   case "write":
     write(implode(a[1..], " ") + "\n");
+    break;
+  case "out":     // out <id> <len> <how> [target]: emit a deterministic message through one of the output efuns
+    {
+      string m;
+      m = mkmsg(to_int(a[1]), to_int(a[2]));
+      o = sizeof(a) > 4 ? ob_of(a[4]) : this_object();
+      if (a[3] == "write" || a[3] == "printf") o = this_player();
+      if (a[3] == "receive") o = this_object();
+      rec("OUT " + (o ? o->me() : "0") + " " + a[1] + " " + a[2] + " " + a[3]);
+      switch (a[3]) {
+      case "write": write(m); break;
+      case "tell": tell_object(o, m); break;
+      case "printf": printf("%s", m); break;
+      case "receive": receive(m); break;
+      default: tell_object(o, m);
+      }
+      rec("OUTDONE " + a[1]);
+    }
     break;
   case "tell":    // tell <ob> text
     o = ob_of(a[1]);
